@@ -133,6 +133,34 @@ pub fn run(em: &mut Emitter, rng: &mut Rng, thorough: bool) {
                 prog_case(em, 901, mode, &[p], &cut, |obs| match obs.first() { Some(1) => Oracle::Pass, Some(0) => Oracle::Fail("unterminated-value-reported-as-read-or-absent".into()), _ => Oracle::Fail("panic".into()) }, true);
             }
         }
+        // the SEQUENCE / SET shortcuts are the tagged constructed reads with Tag::SEQUENCE / Tag::SET
+        {
+            use bcder::decode::{Constructed, IntoSource}; use bcder::Tag;
+            let j = rng.below(ts.len() as u64 + 1) as usize;
+            let d2 = data.clone();
+            let run = |which: u8| -> Option<(bool, Option<bool>, usize)> { catch(|| {
+                let mut src = bcder::decode::SliceSource::new(&d2);
+                let mut present: Option<bool> = None;
+                let body = |c: &mut Constructed<&mut bcder::decode::SliceSource>| -> Result<(), bcder::decode::DecodeError<std::convert::Infallible>> {
+                    for _ in 0..j { c.take_opt_value(|_, ct| match ct { bcder::decode::Content::Primitive(p) => p.skip_all(), bcder::decode::Content::Constructed(k) => k.skip_all() })?; }
+                    present = match which {
+                        0 => c.take_opt_sequence(|k| k.skip_all())?.map(|_| true),
+                        1 => c.take_opt_constructed_if(Tag::SEQUENCE, |k| k.skip_all())?.map(|_| true),
+                        2 => c.take_opt_set(|k| k.skip_all())?.map(|_| true),
+                        3 => c.take_opt_constructed_if(Tag::SET, |k| k.skip_all())?.map(|_| true),
+                        4 => Some(c.take_sequence(|k| k.skip_all()).map(|_| true)?),
+                        5 => Some(c.take_constructed_if(Tag::SEQUENCE, |k| k.skip_all()).map(|_| true)?),
+                        6 => Some(c.take_set(|k| k.skip_all()).map(|_| true)?),
+                        _ => Some(c.take_constructed_if(Tag::SET, |k| k.skip_all()).map(|_| true)?),
+                    };
+                    c.skip_all() };
+                let r = match ctx { Ctx::Top => Constructed::decode(&mut src, mode_of(mode), body),
+                                    _ => Constructed::decode(&mut src, mode_of(mode), |c| c.take_constructed_if(Tag::SEQUENCE, body)) };
+                (r.is_ok(), present, src.len()) }) };
+            let agree = run(0) == run(1) && run(2) == run(3) && run(4) == run(5) && run(6) == run(7);
+            let ps = in_ctx(ctx, vec![Prog::ReadAll]);
+            prog_case(em, 901, mode, &ps, &data, move |_| if agree { Oracle::Pass } else { Oracle::Fail("sequence-or-set-shortcut-disagrees-with-the-tagged-constructed-read".into()) }, true);
+        }
         // typed optional reads (take_opt_bool, take_opt_u8 ... = take_opt_primitive_if + accessor)
         for (exp, ty) in [((0u8, 1u32), 10u8), ((0, 2), 5), ((0, 2), 2), ((0, 5), 11), ((0, 6), 12)] {
             let j = rng.below(ts.len() as u64 + 1) as usize;
